@@ -125,6 +125,13 @@ def _gen_dnd(rng) -> dict:
         nb = [2 ** x for x in e]
         if rng.random() < 0.3 and math.prod(nb) * 3 <= 50000:
             nb[rng.randrange(4)] *= 3
+    if rng.random() < 0.03:
+        # megabin histograms (e.g. 1024 x 1024 images): 2**20 or 2**21 elements, tens of MB
+        m = rng.choice([20, 20, 21])
+        e = [0, 0, 0, 0]
+        for _ in range(m):
+            e[rng.randrange(4)] += 1
+        nb = [2 ** x for x in e]
     qs = lambda: [_gfloat(rng), rng.choice(Q_UNITS)]  # noqa: E731
     es = lambda: [_gfloat(rng), rng.choice(E_UNITS)]  # noqa: E731
     rngs = [[[_gfloat(rng), _gfloat(rng)], rng.choice(Q_UNITS)] for _ in range(3)] + [
@@ -244,7 +251,12 @@ def generate(rng, tier: str, i: int, prop: str) -> dict:
     }
     # fault family
     f = rng.random()
-    small = n_pix <= 3000
+    big_hist = any(c["op"] == "dnd" and math.prod(c["meta"]["axes"]["n_bins"]) > 60000 for c in calls)
+    if big_hist:
+        scn["reuse_builder"] = False
+        scn["recreate"] = False
+        scn["permute_seed"] = None
+    small = n_pix <= 3000 and not big_hist
     if prop == "C12" and small:
         if sink == "mem" and f < (0.25 if tier == "quick" else 0.5):
             scn["faults"] = {"mode": "enum_writes", "partial": rng.choice([0.0, 0.0, 0.5]),
